@@ -105,6 +105,20 @@ CHECKS = {
         "text": "Byte-exact inotify_event records (moves with, without and with swapped partners, other events, a sub-watch's IN_IGNORED) are queued by a kernel model in generated batches with gaps of d/2, d-eps, d, d+eps, 2d and generated records-per-read cuts; the real reader, buffer and delay queue run with line-level scheduling points; every delivered item is checked: each record exactly once, singles in kernel order, a pair between its halves and only for the two halves of one cookie, an unpaired MOVED_FROM never before d, a partner queued strictly before the deadline always paired, end marker after close. Every cut of every sequence up to length 4/5 over a reduced alphabet is enumerated; 7 fixed programs get all schedules with <= 1/2 preemptions.",
         "note": "Trusted: vlib/dsched substitutes, vlib/simkernel.py (validated against the real kernel in setup). Promptness of non-move events is not asserted (the statement gives no bound).",
     },
+    "C04": {
+        "engine": "dsched",
+        "design_ref": "DESIGN.md §3.2, §4 C04",
+        "technique": "property-based testing over client programs and schedules: the real BaseObserver with scripted emitters under a deterministic scheduler (bounded DFS over fixed programs + random schedules over Hypothesis programs), history invariants on logical time",
+        "text": "Small client programs (1-3 watches incl. equal-key schedules, 1-3 handlers some calling the API re-entrantly, scripted emitters, 0-2 API threads) run the real observer, dispatcher and event queue with a scheduling point at every source line of api.py / bricks.py / queue.py / utils; the recorded history must show: no (handler, event) pair delivered more often than queued, per handler and watch a subsequence of queue order, callbacks only for handlers registered by the call history, every event of a continuously registered pair delivered, no dying library thread, no deadlock, all threads finished after stop()+join().",
+        "note": "Trusted: vlib/dsched substitutes (differential-tested in setup). Completeness is asserted only for registrations that no removal overlaps; events overlapping a registry change are 'may'.",
+    },
+    "C05": {
+        "engine": "dsched",
+        "design_ref": "DESIGN.md §3.2, §4 C05",
+        "technique": "property-based testing over client programs and schedules (as C04) with removal-heavy scripts; oracle on the logical times of removal calls, callbacks and emitter activity",
+        "text": "Removal calls (unschedule, remove_handler_for_watch, unschedule_all, stop) are issued by API threads and re-entrantly from handlers at schedule-generated positions of the event stream; for every removal that returned at t_R no callback of a removed (handler, watch) may begin after t_R unless a later registration was invoked before it, and every emitter instance of an unscheduled watch created before the call has finished and queues nothing after t_R.",
+        "note": "Trusted: vlib/dsched substitutes. A callback in progress when the removal is invoked is not a violation.",
+    },
 }
 
 ALL = [f"C{i:02d}" for i in range(1, 21)]
